@@ -210,7 +210,7 @@ func vfAssert(fr *frame, a []value) value {
 		}
 		if ps.model != nil {
 			if v, ok := Eval(nc, ps.model, ps.evalCache); ok && v.B {
-				i.recordViolation("assert", label, ps.model)
+				i.recordViolation("assert", label, ps.model, nc)
 				i.assume(c.t)
 				return nil
 			}
@@ -218,7 +218,7 @@ func vfAssert(fr *frame, a []value) value {
 		r, m := i.checkSat(nc)
 		switch r {
 		case Sat:
-			i.recordViolation("assert", label, m)
+			i.recordViolation("assert", label, m, nc)
 		case Unknown:
 			ps.inconclusive = append(ps.inconclusive, "assert "+label+": solver returned unknown")
 		default:
@@ -229,11 +229,12 @@ func vfAssert(fr *frame, a []value) value {
 	return nil
 }
 
-func (i *interpreter) recordViolation(kind, label string, m Model) {
+func (i *interpreter) recordViolation(kind, label string, m Model, extra ...*Term) {
 	ps := i.ps
 	v := Violation{Kind: kind, Label: label, Trace: append([]Decision{}, ps.trace...), Model: m,
 		Inputs: append([]InputDecl{}, ps.inputs...), NeedsModel: m == nil}
 	v.PC = append(v.PC, ps.pc...)
+	v.PC = append(v.PC, extra...) // the negated assertion
 	v.UsedUF = len(ps.ufUsed) > 0 || len(ps.inexact) > 0
 	ps.violations = append(ps.violations, v)
 }
